@@ -198,7 +198,7 @@ func rulePlanMap(p *Prog, r *Result) {
 		reach := walkAssuming(opt, decideEqConst(isScanTp, cases[name]))
 		classes := map[string]bool{}
 		var rets []string
-		for b := range reach {
+		for _, b := range orderedBlocks(opt, reach) {
 			ret := retOf(b)
 			if ret == nil {
 				continue
@@ -386,7 +386,7 @@ func ruleRoute(p *Prog, r *Result) {
 		name := ops[v]
 		reach := walkAssuming(oe, decideEqConst(isOp, v))
 		var hs []*ssa.Function
-		for b := range reach {
+		for _, b := range orderedBlocks(oe, reach) {
 			for _, in := range b.Instrs {
 				c, ok := in.(*ssa.Call)
 				if !ok {
@@ -612,7 +612,7 @@ func ruleSelectMinMax(p *Prog, r *Result) {
 			continue
 		}
 		reach := walkAssuming(oe, decideEqConst(isOp, v))
-		for b := range reach {
+		for _, b := range orderedBlocks(oe, reach) {
 			for _, in := range b.Instrs {
 				if c, ok := in.(*ssa.Call); ok {
 					if f := c.Call.StaticCallee(); f != nil && p.InPkg(f) && f.Signature.Recv() != nil && typeName(f.Signature.Recv().Type()) == "FilterOptimizer" {
@@ -981,7 +981,7 @@ func ruleNoReadAfterExit(p *Prog, r *Result) {
 			}
 			// exit edges of the inner loop that are not error returns and not the plain loop condition
 			ei := 0
-			for b := range inner.Body {
+			for _, b := range orderedBlocks(fn, inner.Body) {
 				for si, s := range b.Succs {
 					if inner.Body[s] || returnsNonNilErrorFrom(s) {
 						continue
